@@ -279,6 +279,55 @@ theorem no_deadlock (rank : Nat → Nat) (ths : List ThL) (ho : Ordered rank ths
     exact List.mem_map.mpr ⟨th, hth, by simp [hw]⟩
   omega
 
+/-- the hierarchy with a GATE: a thread may wait for a lock of rank `r` while holding locks of the
+same rank, provided it holds the gate lock `g` (in the library: inside a buffered context the
+first load of a file takes that file's lock while another file's lock is held - always under
+the class-wide buffer lock) -/
+def OrderedG (rank : Nat → Nat) (g r : Nat) (ths : List ThL) : Prop :=
+  ∀ th ∈ ths, ∀ w, th.waits = some w → ∀ l ∈ th.holds,
+    rank l < rank w ∨ (rank l = r ∧ rank w = r ∧ g ∈ th.holds)
+
+/-- DEADLOCK FREEDOM with a gate lock: if (1) every blocked thread waits for a lock ranked above
+all it holds, or of the gated rank while it holds the gate, (2) whoever holds a lock of the gated
+rank holds the gate, (3) the gate is held by one thread at a time and is not itself of the gated
+rank, (4) nobody waits for a lock it holds (the locks are re-entrant) - then no set of threads
+can be waiting for each other. -/
+theorem no_deadlock_gated (rank : Nat → Nat) (g r : Nat) (ths : List ThL)
+    (ho : OrderedG rank g r ths)
+    (hG : ∀ u ∈ ths, ∀ l ∈ u.holds, rank l = r → g ∈ u.holds)
+    (hex : ∀ th ∈ ths, ∀ u ∈ ths, g ∈ th.holds → g ∈ u.holds → th = u)
+    (hself : ∀ th ∈ ths, ∀ w, th.waits = some w → w ∉ th.holds) :
+    ¬ Deadlocked ths := by
+  intro ⟨⟨th0, hth0, hw0⟩, hall⟩
+  have climb : ∀ k, ∃ th ∈ ths, ∃ w, th.waits = some w ∧ k ≤ rank w := by
+    intro k
+    induction k with
+    | zero =>
+      cases hw : th0.waits with
+      | none => simp [hw] at hw0
+      | some w => exact ⟨th0, hth0, w, hw, Nat.zero_le _⟩
+    | succ k ih =>
+      obtain ⟨th, hth, w, hw, hk⟩ := ih
+      obtain ⟨u, hu, hwu, huw⟩ := hall th hth w hw
+      cases hw' : u.waits with
+      | none => simp [hw'] at huw
+      | some w' =>
+        rcases ho u hu w' hw' w hwu with hlt | ⟨_, hr', hgu⟩
+        · exact ⟨u, hu, w', hw', by omega⟩
+        · -- the gated case cannot be part of a deadlock: whoever holds w' holds the gate too
+          exfalso
+          obtain ⟨v, hv, hwv, _⟩ := hall u hu w' hw'
+          have hgv := hG v hv w' hwv hr'
+          have huv := hex u hu v hv hgu hgv
+          subst huv
+          exact hself u hu w' hw' hwv
+  let B := (ths.map (fun th => match th.waits with | some w => rank w | none => 0)).sum
+  obtain ⟨th, hth, w, hw, hk⟩ := climb (B + 1)
+  have : rank w ≤ B := by
+    apply le_sum_of_mem
+    exact List.mem_map.mpr ⟨th, hth, by simp [hw]⟩
+  omega
+
 /-- the audit of acquisitions implies the hierarchy hypothesis: if every blocked thread's pending
 acquisition passes `acquireOk` for the roles of the locks it holds, the threads are `Ordered`
 for the rank `lock ↦ rank (role lock)` -/
